@@ -15,7 +15,9 @@ the bindings map that was passed, which is the one result) — for every message
 enough fuel.  The inequality arm is `TrIneq.tr_inequal`.  `tr_match_bound`: a bound variable whose
 value looks like a variable is compared as a constant, any other bound value is used as the pattern
 (`match` calls itself on it with the same message value and bindings) — the clause of the containment
-relation `Sat` for variables.  The map and array arms are tied by execution only.
+relation `Sat` for variables.  `tr_match_map`: a message value that is not a map does not match a map
+pattern, the empty map pattern matches any map, otherwise the answer is `mapcatMatch`'s on the one
+bindings map.  The array arm and `mapcatMatch`/`arraycatMatch` themselves are tied by execution only.
 -/
 
 namespace Sheens.TrMatch
@@ -291,6 +293,107 @@ theorem tr_match_bound (n : Nat) (g : Env) (H : Heap) (f x : GV) (v : String) (a
     cases callFn (n + 77) matchProg g ".match" (GV.ref am) [GV.other t, fudgeG f, GV.ref ab] H with
     | error e' => rfl
     | ok r => obtain ⟨vs, h1⟩ := r; rfl
+
+
+/-- a map pattern: a message value that is not a map does not match; the empty map pattern matches
+    any map; otherwise the answer is `mapcatMatch`'s on the one bindings map -/
+theorem tr_match_map (n : Nat) (g : Env) (H : Heap) (m f : GV) (pa ab : Nat) (po : MapObj)
+    (hp : heapGet H pa = some po) (hpt : po.ty = "map[string]interface{}")
+    (RHS : R (List GV × Heap))
+    (hR : (match f with
+       | .ref fa =>
+         (match heapGet H fa with
+          | some fo =>
+            if fo.ty = "map[string]interface{}" then
+              (if po.kvs.length = 0 then (.ok ([.slice [.ref ab], .nil], H) : R (List GV × Heap))
+               else callFn (n + 39) matchProg g ".mapcatMatch" m [.slice [.ref ab], .ref pa, .ref fa] H)
+            else .ok ([.nil, .nil], H)
+          | none => .ok ([.nil, .nil], H))
+       | _ => .ok ([.nil, .nil], H)) = RHS) :
+    callFn (n + 60) matchProg g ".match" m [.ref pa, f, .ref ab] H = RHS := by
+  have hf1 : ∀ y, callFn (n + 56) matchProg g "fudge" .nil [y] H = .ok ([fudgeG y], H) := fun y => by
+    rw [show n + 56 = (n + 44) + 12 from rfl]; exact tr_fudge _ g y H
+  have hf2 : ∀ y, callFn (n + 55) matchProg g "fudge" .nil [y] H = .ok ([fudgeG y], H) := fun y => by
+    rw [show n + 55 = (n + 43) + 12 from rfl]; exact tr_fudge _ g y H
+  have hfp : fudgeG (.ref pa) = .ref pa := rfl
+  obtain ⟨pty, pkvs⟩ := po
+  simp only at hpt
+  subst hpt
+  rw [show n + 60 = (n + 59) + 1 from rfl]
+  simp only [callFn, find_match]
+  simp [-callFn, -typeOf, matchProg_Mmatch]
+  rw [hf1 (.ref pa)]
+  simp [-callFn, -typeOf, hfp]
+  rw [hf2 f]
+  cases f with
+  | ref fa =>
+    have hff : fudgeG (.ref fa) = .ref fa := rfl
+    cases hfo : heapGet H fa with
+    | none =>
+      simp only [hfo] at hR
+      simp [-callFn, hff, hp, hfo]
+      exact hR
+    | some fo =>
+      simp only [hfo] at hR
+      obtain ⟨fty, fkvs⟩ := fo
+      by_cases hft : fty = "map[string]interface{}"
+      · subst hft
+        simp only [if_true] at hR
+        by_cases hlen : pkvs.length = 0
+        · simp only [hlen] at hR
+          try simp only [if_true] at hR
+          have hnil : pkvs = [] := List.eq_nil_of_length_eq_zero hlen
+          subst hnil
+          simp [-callFn, hff, hp, hfo, goLen]
+          exact hR
+        · simp only [hlen] at hR
+          try simp only [if_false] at hR
+          have hl0 : ¬ ((0 : Int) = (pkvs.length : Int)) := by omega
+          simp [-callFn, hff, hp, hfo, goLen, hl0, hlen]
+          refine Eq.trans ?_ hR
+          cases callFn (n + 39) matchProg g ".mapcatMatch" m [GV.slice [GV.ref ab], GV.ref pa, GV.ref fa] H with
+          | error e => rfl
+          | ok r => obtain ⟨vs, h1⟩ := r; rfl
+      · simp only [hft, if_false] at hR
+        have hft' : ¬ "map[string]interface{}" = fty := fun h => hft h.symm
+        simp [-callFn, hff, hp, hfo, hft, hft']
+        exact hR
+  | nil =>
+    simp only at hR
+    simp [-callFn, fudgeG, hp]
+    exact hR
+  | bool b =>
+    simp only at hR
+    simp [-callFn, fudgeG, hp]
+    exact hR
+  | f64 q =>
+    simp only at hR
+    simp [-callFn, fudgeG, hp]
+    exact hR
+  | int i =>
+    simp only at hR
+    simp [-callFn, fudgeG, hp]
+    exact hR
+  | numT t i =>
+    simp only at hR
+    simp [-callFn, fudgeG, hp]
+    exact hR
+  | str t =>
+    simp only at hR
+    simp [-callFn, fudgeG, hp]
+    exact hR
+  | slice xs =>
+    simp only at hR
+    simp [-callFn, fudgeG, hp]
+    exact hR
+  | err e =>
+    simp only at hR
+    simp [-callFn, fudgeG, hp]
+    exact hR
+  | other t =>
+    simp only at hR
+    simp [-callFn, fudgeG, hp]
+    exact hR
 
 
 end Sheens.TrMatch
